@@ -100,3 +100,16 @@ func TestNativeF8SizeZeroRefreshWithProof(t *testing.T) {
 		t.Fatalf("F8 reproduced: got (%d bytes, %v), want (stored checkpoint, ErrInvalidProof)", len(out), err)
 	}
 }
+
+// F3: the empty proof must survive Marshal/Unmarshal.
+func TestNativeF3EmptyProofRoundTrip(t *testing.T) {
+	for _, p := range []Proof{nil, {}} {
+		var q Proof
+		if err := q.Unmarshal([]byte(p.Marshal())); err != nil {
+			t.Fatalf("F3 reproduced: Unmarshal(Marshal(empty proof)) failed: %v", err)
+		}
+		if len(q) != 0 {
+			t.Fatalf("got %d hashes, want 0", len(q))
+		}
+	}
+}
